@@ -191,68 +191,38 @@ Theorem fingerprint_order_independent : forall (ch64 : string -> N) (m1 m2 : lbl
 Proof. exact fingerprint_perm. Qed.
 Print Assumptions fingerprint_order_independent.
 
-(* "distinct label sets stay distinct series" is FALSE of hash.go, for every hash function CH64 (injective or not): key
-   and value are joined without a separator *)
-Theorem distinct_labels_distinct_series_refuted :
-  exists m1 m2 : lbls, m1 <> m2 /\ forall ch64 : string -> N, fingerprint ch64 m1 = fingerprint ch64 m2.
-Proof.
-  exists [("a", "bc")]%string, [("ab", "c")]%string. split; [discriminate|exact hash_collision_witness].
-Qed.
-Print Assumptions distinct_labels_distinct_series_refuted.
+(* distinct label sets stay distinct series (after the fix of hash.go: key and value are hashed separately; before it
+   {a:"bc"} and {ab:"c"} had one fingerprint for EVERY CH64).  A 64-bit hash of unbounded strings cannot be injective, so the
+   hypotheses name exactly the collisions that must not happen.
+   (1) Whenever CH64 does not collide on the two 24-byte descriptors, equal fingerprints force equal descriptors, i.e. the
+       same sum, xor and product of the per-label hashes: all a fingerprint can ever tell about a label set.              *)
+Theorem fingerprint_equal_means_descriptor_equal : forall (ch64 : string -> N) (m1 m2 : lbls),
+  (w64 (ch64 (descr_of ch64 m1)) = w64 (ch64 (descr_of ch64 m2)) -> descr_of ch64 m1 = descr_of ch64 m2) ->
+  fingerprint ch64 m1 = fingerprint ch64 m2 ->
+  let '(a, b, c) := fp_descr ch64 m1 in let '(a', b', c') := fp_descr ch64 m2 in w64 a = w64 a' /\ w64 b = w64 b' /\ w64 c = w64 c'.
+Proof. exact fingerprint_to_descr. Qed.
+Print Assumptions fingerprint_equal_means_descriptor_equal.
 
-(* stage_meets_definition for json / logfmt is FALSE of the code: the definition keeps a line that does not decode (with
-   its stream labels), the code fails the whole request.  Witness: one row whose line the decoder rejects.              *)
-Theorem stage_meets_definition_parser_refuted :
-  exists (parse : N -> string -> option lbls) (rows : list (entry Z)),
-    Forall (data_row Z) rows /\
-    outcome_of Z (run_stage Z 0 1 Z.add Z.div Z.ltb Z.leb Z.eqb (fun z => z) false (fun _ => 0%N) (fun _ _ => false) (fun _ => None)
-                            parse (fun _ _ => None) {| c_from := 0; c_to := 10; c_limit := 0 |} (SParser Z 0%N) [rows])
-    <> OResult Z (sem_stage Z 0 1 Z.add Z.div Z.ltb Z.leb Z.eqb (fun z => z) (fun _ => 0%N) (fun _ _ => false) (fun _ => None)
-                            parse (fun _ _ => None) {| c_from := 0; c_to := 10; c_limit := 0 |} (SParser Z 0%N) rows).
-Proof.
-  exists (fun _ _ => None), [{| e_ts := 1; e_fp := 7%N; e_lbl := Some [("app", "x")]%string; e_msg := "[1,2]"%string; e_val := 0; e_err := ENone |}].
-  split; [constructor; [split; [reflexivity|eexists; reflexivity]|constructor]|]. vm_compute. discriminate.
-Qed.
-Print Assumptions stage_meets_definition_parser_refuted.
-
-(* the hypotheses of the agreement theorems are met by a non-trivial stream: two rows of two series, an io.EOF
-   terminator, three batches one of which is empty, a decoder that accepts both lines *)
-Example agreement_hypotheses_met :
-  let r1 := {| e_ts := 1; e_fp := 7%N; e_lbl := Some [("app", "x")]%string; e_msg := "a=1"%string; e_val := 0; e_err := ENone |} in
-  let r2 := {| e_ts := 2; e_fp := 8%N; e_lbl := Some [("app", "y")]%string; e_msg := "a=2"%string; e_val := 0; e_err := ENone |} in
-  let eof := {| e_ts := 0; e_fp := 0%N; e_lbl := None; e_msg := EmptyString; e_val := 0; e_err := EEof |} in
-  let parse := fun (_ : N) (s : string) => Some [("a", s)]%string in
-  let ch := [SLineFilter Z LfContains "a"%string; SLabelFormat Z [LFConst "k" "v"]%string; SLimit Z] in
-  Forall (data_row Z) [r1; r2] /\ Forall (decodes Z parse 0%N) [r1; r2] /\ Forall (terminator Z) [eof] /\
-  List.concat [[r1]; []; [r2; eof]] = [r1; r2] ++ [eof] /\ forallb (simple_stage Z) ch = true.
-Proof.
-  cbv zeta. repeat split; try (repeat constructor; try eexists; try reflexivity; try discriminate).
-Qed.
-
-(* what remains true: for label sets of ONE label, when CH64 has no collision among the (four) strings it is applied to
-   while fingerprinting the two sets, equal fingerprints force the concatenations key ++ value to be equal — the
-   concatenation is all the hash ever sees of a label (so {a:"bc"} / {ab:"c"} is exactly what is lost) *)
-Theorem distinct_labels_distinct_series_partial : forall (ch64 : string -> N) (k v k' v' : string),
-  collision_free ch64 (hashed ch64 [(k, v)] ++ hashed ch64 [(k', v')]) ->
-  fingerprint ch64 [(k, v)] = fingerprint ch64 [(k', v')] -> (k ++ v)%string = (k' ++ v')%string.
+(* (2) one-label sets: different (key, value) pairs are different series unless CH64 collides on the descriptors or the
+       per-label hash collides on the two pairs.  The witness of the old defect, ("a","bc") against ("ab","c"), is an
+       instance: the key/value boundary is now part of what is hashed.                                                 *)
+Theorem distinct_labels_distinct_series : forall (ch64 : string -> N) (k v k' v' : string),
+  (w64 (ch64 (descr_of ch64 [(k, v)])) = w64 (ch64 (descr_of ch64 [(k', v')])) -> descr_of ch64 [(k, v)] = descr_of ch64 [(k', v')]) ->
+  (pair_hash ch64 (k, v) = pair_hash ch64 (k', v') -> (k, v) = (k', v')) ->
+  fingerprint ch64 [(k, v)] = fingerprint ch64 [(k', v')] -> (k, v) = (k', v').
 Proof. exact singleton_distinct. Qed.
-Print Assumptions distinct_labels_distinct_series_partial.
+Print Assumptions distinct_labels_distinct_series.
 
-(* the guard is satisfiable, and by a pair of distinct label sets: with CH64 := string length the four hashed strings
-   "ab", "abc" and the two 24-byte descriptors ... are collision free only if the lengths differ; here 2, 3, 24, 24 with the
-   two descriptors different would collide, so the example uses a hash that separates them: the numeric value of the
-   first two bytes *)
-Example distinct_labels_partial_guard_met :
+(* the hypotheses are satisfiable on the old witness: with CH64 := the numeric value of the first two bytes the two label
+   sets {a:"bc"} and {ab:"c"} get different fingerprints *)
+Example old_collision_witness_now_distinct :
   let h := fun s : string => match s with
                              | String a (String b _) => (N_of_ascii a * 256 + N_of_ascii b)%N
                              | String a EmptyString => N_of_ascii a
                              | EmptyString => 0%N
                              end in
-  collision_free h (hashed h [("a", "b")]%string ++ hashed h [("c", "d")]%string).
-Proof.
-  cbv zeta. intros a b Ha Hb. vm_compute in Ha, Hb.
-  destruct Ha as [<-|[<-|[<-|[<-|[]]]]]; destruct Hb as [<-|[<-|[<-|[<-|[]]]]]; vm_compute; intros H; try reflexivity; discriminate H.
-Qed.
+  fingerprint h [("a", "bc")]%string <> fingerprint h [("ab", "c")]%string.
+Proof. cbv zeta. vm_compute. discriminate. Qed.
 
 (* planner.go GetBreakpoint / breakScript: the pipeline is cut in two without loss or reordering, ClickHouse is never handed
    a stage it cannot run (json without parameters, logfmt, line_format), and the in-process part — when there is one —
